@@ -4,6 +4,7 @@ import importlib, os, sys
 HERE = os.path.dirname(os.path.abspath(__file__))
 sys.path.insert(0, os.path.join(HERE, "lib"))
 sys.path.insert(0, HERE)
+sys.path.insert(0, os.path.join(HERE, "checks"))
 import vcheck
 
 def main():
